@@ -77,7 +77,7 @@ func (g *Gen) seedGenesis(gs *GenesisSpec) {
 	a.Topics = tt
 	gs.Aol = a
 	// DID: a few documents and tombstones (several entries so that map iteration order matters)
-	nD := r.Range(2, 5)
+	nD := r.Range(2, 9)
 	usedK := map[int]bool{}
 	for i := 0; i < nD; i++ {
 		k := r.Intn(NumDidKeys)
